@@ -680,6 +680,16 @@ def sum_form(ctx, func):
     if isinstance(v, ast.Call) and isinstance(v.func, ast.Name) and v.func.id == "sum" \
             and 1 <= len(v.args) <= 2 and not v.keywords:
         g = v.args[0]
+        start = v.args[1] if len(v.args) == 2 else ast.Constant(value=0)
+        if isinstance(g, ast.Call) and isinstance(g.func, ast.Name) and g.func.id == "map" \
+                and len(g.args) == 2 and not g.keywords:
+            # sum(map(F, IT), S): one F(item) per item
+            item = ast.Name(id="item_", ctx=ast.Load())
+            elt = ast.Call(func=g.args[0], args=[item], keywords=[])
+            ast.copy_location(elt, g)
+            ast.fix_missing_locations(elt)
+            return dict(start=start, iter=g.args[1], target=ast.Name(id="item_", ctx=ast.Store()),
+                        elt=elt, node=rets[0])
         if isinstance(g, (ast.GeneratorExp, ast.ListComp)) and len(g.generators) == 1 \
                 and not g.generators[0].ifs:
             start = v.args[1] if len(v.args) == 2 else ast.Constant(value=0)
